@@ -15,6 +15,7 @@ import (
 	"github.com/feichai0017/NoKV/kv"
 	"github.com/feichai0017/NoKV/pb"
 	"github.com/feichai0017/NoKV/utils"
+	"github.com/feichai0017/NoKV/utils/verifhook"
 	proto "google.golang.org/protobuf/proto"
 )
 
@@ -294,6 +295,7 @@ func (tb *tableBuilder) flush(lm *levelManager, tableName string) (t *table, err
 		return nil, err
 	}
 	written := bd.Copy(dst)
+	verifhook.Crash("sst.build")
 	utils.CondPanicFunc(written != len(dst), func() error {
 		return fmt.Errorf("tableBuilder.flush written != len(dst)")
 	})
